@@ -48,3 +48,14 @@ Theorem C06_minvv_purge_justified : forall vs t r,
   vcovers (min_vv vs) t = true -> vcovers r t = true.
 Proof. exact min_vv_covers_all. Qed.
 Print Assumptions C06_minvv_purge_justified.
+
+(* system level: the vector a PushPull response carries is the minimum over the
+   requester's vector and every stored row, hence never above any attached
+   client's row *)
+From YV Require Import Proto.Server Proofs.ProtoProofs.
+Theorem C06_response_minvv_sound : forall s q s2 r m,
+  push_pull s q = (s2, r, ENone) -> p_vv r = Some m ->
+  vv_nonneg (q_vv q) -> (forall b row, In (b, row) (s_vvrows s2) -> vv_nonneg row) ->
+  forall b row x, In (b, row) (s_vvrows s2) -> vget0 m x <= vget0 row x.
+Proof. exact minvv_sound. Qed.
+Print Assumptions C06_response_minvv_sound.
